@@ -17,6 +17,7 @@ import (
 	"path/filepath"
 	"sort"
 	"strings"
+	"sync"
 	"time"
 
 	"github.com/benoitkugler/gomacro/analysis"
@@ -37,8 +38,8 @@ type ProgBuild struct {
 	Files     map[string]string // source files (relative to module)
 	Gen       map[string]string // generated Go files after the import fixing pass
 	Outs      map[string]gens.Out
-	Skipped   string   // non-empty: the program is not part of the binary, with the reason
-	TypeNames []string // top-level value types of the source file, in order
+	Skipped   string            // non-empty: the program is not part of the binary, with the reason
+	TypeNames []string          // top-level value types of the source file, in order
 	RandFuncs map[string]string // type name -> rand function name
 }
 
@@ -52,8 +53,20 @@ type Session struct {
 	bin   string
 }
 
+var fixMu sync.Mutex
+
 // FixImports applies the import fixing pass gomacro itself applies to Go output (goimports).
 func FixImports(filename, src string) (string, error) {
+	// the pass resolves packages of the module the PROCESS stands in (go list in the working directory): stand
+	// in the directory of the file, so that packages of the scratch module (a wrapper generated for a sub package)
+	// can be found, as they are when goimports is run on the written file
+	fixMu.Lock()
+	defer fixMu.Unlock()
+	if wd, err := os.Getwd(); err == nil {
+		if os.Chdir(filepath.Dir(filename)) == nil {
+			defer os.Chdir(wd)
+		}
+	}
 	out, err := imports.Process(filename, []byte(src), &imports.Options{Comments: true, TabIndent: true, TabWidth: 8, FormatOnly: false})
 	if err != nil {
 		return "", err
@@ -104,15 +117,53 @@ func Prepare(dir string, progs []*absprog.Prog, withRand bool) (*Session, error)
 		rels = append(rels, fmt.Sprintf("p%d/defs.go", p.ID))
 	}
 	mod.Write(map[string]string{"zengine/engine.go": strings.Replace(engineSrc, "package zengine", "package zengine", 1)})
+	// a union declared in the sub package is used through the wrapper generated for THAT package: its file gets
+	// its own generated code
+	type companion struct{ prog, idx int }
+	var companions []companion
+	for i, p := range progs {
+		for _, d := range p.Decls {
+			if d.K == "iface" && d.Pkg == "sub" {
+				companions = append(companions, companion{i, len(rels)})
+				rels = append(rels, fmt.Sprintf("p%d/sub/sub.go", p.ID))
+				break
+			}
+		}
+	}
 	pkgs, root, err := mod.Load(rels)
 	if err != nil {
 		return nil, fmt.Errorf("loading synthesised programs: %w", err)
 	}
+	for _, cp := range companions {
+		pb := s.Progs[cp.prog]
+		file := mod.Abs(rels[cp.idx])
+		var ana *analysis.Analysis
+		if class, msg := synth.Guard(func() { ana = analysis.NewAnalysisFromFile(pkgs[cp.idx], file) }); class != synth.OutOK {
+			pb.Skipped = "analysis of the sub package " + class + ": " + msg
+			continue
+		}
+		o := gens.Run("go/unions", pkgs[cp.idx], file, ana, root)
+		if o.Class != synth.OutOK {
+			pb.Skipped = "go/unions on the sub package " + o.Class + ": " + o.Msg
+			continue
+		}
+		fixed, err := FixImports(filepath.Join(mod.Dir, fmt.Sprintf("p%d/sub", pb.Prog.ID), "gen_unions.go"), o.Text)
+		if err != nil {
+			pb.Skipped = "go/unions output for the sub package does not parse: " + err.Error()
+			continue
+		}
+		pb.Gen["sub/gen_unions.go"] = fixed
+		mod.Write(map[string]string{fmt.Sprintf("p%d/sub/gen_unions.go", pb.Prog.ID): fixed})
+	}
+	pkgs = pkgs[:len(progs)]
 	s.Pkgs, s.Root = pkgs, root
 	s.Anas = make([]*analysis.Analysis, len(progs))
 	for i, pb := range s.Progs {
 		pkg := pkgs[i]
 		file := mod.Abs(rels[i])
+		if pb.Skipped != "" {
+			continue
+		}
 		var ana *analysis.Analysis
 		class, msg := synth.Guard(func() { ana = analysis.NewAnalysisFromFile(pkg, file) })
 		if class != synth.OutOK {
